@@ -238,8 +238,11 @@ CTX_LAYOUT = {
     12: (912, 0, 4, 0x00400003, 264, 256, 8),                                              # CONTEXT_ARM64: pc, sp
     0x8003: (796, 0, 8, 0x80000002, 264, 256, 8),                                          # CONTEXT_ARM64_OLD: pc, sp
     1: (600, 0, 4, 0x00040003, 312, 240, 8),                                               # CONTEXT_MIPS: epc, iregs[29]
+    3: (1004, 0, 4, 0x20000003, 4, 16, 4),                                                 # CONTEXT_PPC: srr0, gpr[1]
+    0x8002: (1160, 0, 8, 0x01000003, 8, 32, 8),                                            # CONTEXT_PPC64: srr0, gpr[1]
+    0x8001: (584, 0, 4, 0x10000003, 272, 120, 8),                                          # CONTEXT_SPARC: pc, g_r[14]
 }
-H_ARCHS = [0, 10, 9, 12, 0x8003, 5, 1, 0, 9, 5, 12, 0x8004, 2, 6, 0xffff, 77]          # architectures the writer has a context for, or that have no context reader
+H_ARCHS = [0, 10, 9, 12, 0x8003, 5, 1, 3, 0x8002, 0x8001, 0, 9, 5, 12, 0x8004, 2, 6, 0xffff, 77]          # every architecture with a context reader, and some without
 ST_THREADS, ST_MODULES, ST_EXCEPTION, ST_SYSINFO, ST_UNLOADED, ST_MISC, ST_TNAMES = 3, 4, 6, 7, 14, 15, 24
 ST_BREAKPAD, ST_LXSTATUS = 0x47670001, 0x47670004
 
@@ -441,7 +444,7 @@ class C14(PropBase):
             "(thread absent / present / equal to the dump-writer thread, code, flags, 0..15 parameters, context), Breakpad info with every "
             "validity combination (also truncated / over-long streams), misc info flag combinations and stream lengths below / above the structure, Linux status stream as raw bytes (hostile texts), little- and big-endian dumps, regions in a MemoryList or a Memory64List, modules, overlapping unloaded modules, memory regions. "
             "The harness synthesizes it with minidump-synth and runs process_minidump. H cases carry the dump as BYTES written by the plugin's own writer "
-            "(7 context layouts, either byte order, streams in any order, leading duplicate directory entries, unknown stream types, an optional stream whose "
+            "(9 context layouts for the 10 architectures with a context reader, either byte order, streams in any order, leading duplicate directory entries, unknown stream types, an optional stream whose "
             "location runs past the file, a missing thread list / system info): the model side is C02's reader model composed with C14's, the implementation "
             "side Minidump::read + process_minidump. Non-trivial = at least two threads and an exception record or Breakpad info; distinct = distinct case lines")
     trusted_base = [
@@ -459,7 +462,7 @@ class C14(PropBase):
         "translate/c14_names.py: value -> Debug name tables of the 40 small error-code enumerations; reason_string mirrors Display for CrashReason "
         "over them (compared for 29 of 33 variants incl. the EXC_RESOURCE / EXC_GUARD bit-field renderings; literal prefixes tied to the source by c14_display_prefix_is_source)",
         "C02's reader model (C02/Model.v decode_dump, Gen/Layouts.v) and its theorem dump_roundtrip (C02/Proofs4.v), composed with C14's model in C14/Bytes.v; "
-        "the positions of ip / sp among the integers of 6 context structures (Bytes.ctx_regs; compared on every H case); the plugin's own dump writer (props/c14.py write_dump)",
+        "the names of the ip / sp fields of the 9 context structures (Bytes.ctx_regs_named over Gen/Layouts.v; compared on every H case); the plugin's own dump writer (props/c14.py write_dump)",
         "the names the two large Windows tables (winerror.h, ntstatus.h: ~5800 names, not translated into Coq) give the values a case consults are read from the "
         "checkout's windows.rs by the plugin and handed to the model per case (NM section); reason_string_nm renders over them",
         "extraction ExtrOcamlBasic; ocaml/c14/main.ml; harness/src/bin/c14.rs (minidump-synth dump writer, test-assembler)",
@@ -468,7 +471,7 @@ class C14(PropBase):
         "the text of WinError / WinErrorWithFacility / NTSTATUS / in-page reasons is rendered by the model over names handed over per case (read from the source's two ~2900-entry tables by the plugin, "
         "as the oracle does independently); H cases (bytes only) do not compare the text of these four families",
         "from the bytes of a dump the model does not read the memory regions (d_mems = [], no own stack): the stack-memory choice is stated and compared over the case description only; "
-        "CPU contexts from bytes: x86, amd64, arm, arm64, old arm64, mips (the byte-level theorems hold for every context reader)",
+        "CPU contexts from bytes: all nine structures (ten architectures) MinidumpContext::read has an arm for; positions of ip / sp found by field name in the regenerated layouts (the byte-level theorems hold for every context reader)",
         "u8::is_ascii_whitespace and str::parse::<u32> (standard library) are modelled by hand (is_ws, parse_u32); non-UTF-8 bytes never form a digit",
         "the stack memory chosen for a walk is observed through the first scanned frame on x86, amd64, arm (not iOS), arm64 and old arm64 (64-bit CPUs: 8-byte aligned sp only; 32-bit: any alignment); on other CPUs the model's choice is not compared",
         "frames beyond frame 0 (the unwinder) belong to C03-C07; unloaded-module attribution is compared for frame 0",
